@@ -41,7 +41,7 @@ func init() {
 		Required: []string{
 			"dir:~A", "dir:~S", "dir:~D", "dir:~B", "dir:~O", "dir:~X", "dir:~R", "dir:~C", "dir:~%", "dir:~&", "dir:~~", "dir:~T",
 			"dir:~*", "dir:~?", "dir:~(", "dir:~[", "dir:~{", "dir:~P",
-			"param:v", "param:#", "param:quoted-char", "block-inside-block", "argument-pointer-moved-back-or-absolute",
+			"param:v", "param:#", "param:quoted-char", "param:#-after-v-in-one-directive", "param:#-after-v-inside-a-block", "block-inside-block", "argument-pointer-moved-back-or-absolute",
 			"recursive-control", "grouping-with-parameters", "bignum-argument", "composition", "three-destinations-agree",
 			"family:english", "family:roman", "family:composition", "family:nest",
 		},
@@ -55,7 +55,7 @@ func bound(tier string) string {
 	enumerate(tier, func(string) { n++ })
 	if tier == engine.Thorough {
 		return fmt.Sprintf("%d cases: ", n) + ("~D ~B ~O ~X x mincol{-,0,1,5,12,27,40} x padchar{-,'0,'.} x commachar{-,'_} x interval{-,1,2,3,4,7} x 4 modifier sets x 29 integers " +
-			"(0 .. +-10^30, both sides of 2^63); ~nR for 9 radixes x mincol x padchar x commachar x interval x modifiers; v/# parameter forms; every printable ASCII " +
+			"(0 .. +-10^30, both sides of 2^63); ~nR for 9 radixes x mincol x padchar x commachar x interval x modifiers; v/# parameter forms; every parameter slot of ~D ~B ~O ~X ~A ~S ~nR drawn from {omitted, literal, v, #} (with 1 and 3 further arguments, and inside ~{ ~}); every printable ASCII " +
 			"character as a quoted parameter; ~A ~S x mincol x colinc x minpad x padchar x modifiers x 22 objects; ~R and ~:R for every n in -20000..400000 and 15 " +
 			"multiples of every 10^k below 10^66; ~@R ~:@R for every n in 1..4999; ~C x 15 characters x 4 forms; ~% ~& ~~ counts 0..3 after 5 prefixes; ~T " +
 			"absolute/relative x colnum x colinc x 5 prefixes; ~* (21 forms) at 4 positions; ~P; ~[ (index -1..4, ~:;, #, v, ~:[, ~@[, nested); ~{ (4 forms x max " +
@@ -63,7 +63,7 @@ func bound(tier string) string {
 			"every 1 and 2 items and around every wrapped item (blocks inside blocks)")
 	}
 	return fmt.Sprintf("%d cases: ", n) + ("~D ~B ~O ~X x mincol{-,0,5,12} x padchar{-,'0,'.} x commachar{-,'_} x interval{-,1,3,4} x 4 modifier sets x 15 integers (0 .. +-10^20, " +
-		"both sides of 2^63); ~nR for 6 radixes x mincol x padchar x commachar x interval x modifiers; v/# parameter forms; every printable ASCII character as a " +
+		"both sides of 2^63); ~nR for 6 radixes x mincol x padchar x commachar x interval x modifiers; v/# parameter forms; every parameter slot of ~D ~B ~O ~X ~A ~S ~nR drawn from {omitted, literal, v, #} (with 1 and 3 further arguments, and inside ~{ ~}); every printable ASCII character as a " +
 		"quoted parameter; ~A ~S x mincol x colinc x minpad x padchar x modifiers x 22 objects; ~R and ~:R for every n in -1000..20000 and 6 multiples of every " +
 		"10^k below 10^66; ~@R ~:@R for every n in 1..4999; ~C x 15 characters x 4 forms; ~% ~& ~~ counts 0..3 after 5 prefixes; ~T absolute/relative x colnum " +
 		"x colinc x 5 prefixes; ~* (21 forms) at 4 positions; ~P; ~[ (index -1..4, ~:;, #, v, ~:[, ~@[, nested); ~{ (4 forms x max count x lists 0..4 x nested " +
